@@ -416,11 +416,12 @@ def obligations(tier, seed):
     ]
     n = 2 if tier == "quick" else 3
     for pk in (0, 2, 3, 4, 5, 6):
-        obs.append(Ob(id="C04.8-bytes[%s]" % dl.PROTO_NAMES[pk], body="harness.C04:body_bytes", sig="p: int, html: bool, k: int, where: int, listing: bool",
-                      pre=["p == %d" % pk, ("k in %r" % (REP_BYTES,)) if tier == "quick" else "0 <= k <= 255", "0 <= where <= 2"] + (["where == 1"] if tier == "quick" else []), timeout=300 if tier == "quick" else 1500,
-                      desc="%s: a text / HTML file with an arbitrary byte before, inside or after its <title>, through the real handler chain: document request succeeds with the file's bytes as body; the directory listing succeeds and names the file" % dl.PROTO_NAMES[pk],
-                      bounds="byte value %s, 3 positions%s, html/plain, document/listing (symbolic)" % ("from 16 class representatives (NUL, CR, LF, markup, ASCII, UTF-8 continuation/lead/invalid bytes)" if tier == "quick" else "0..255", " (quick: inside the title)" if tier == "quick" else ""),
-                      functions=["handlers.html.HTMLFileTitleHandler.getentry", "handlers.file.FileHandler.getentry/write", "HandlerMultiplexer.getHandler", "protocols.*.handle"]))
+        for wh in ([1] if tier == "quick" else [0, 1, 2]):
+            obs.append(Ob(id="C04.8-bytes[%s%s]" % (dl.PROTO_NAMES[pk], "" if tier == "quick" else ",where=%d" % wh), body="harness.C04:body_bytes", sig="p: int, html: bool, k: int, where: int, listing: bool",
+                          pre=["p == %d" % pk, ("k in %r" % (REP_BYTES,)) if tier == "quick" else "0 <= k <= 255", "where == %d" % wh], timeout=300 if tier == "quick" else 1500,
+                          desc="%s: a text / HTML file with an arbitrary byte %s its <title>, through the real handler chain: document request succeeds with the file's bytes as body; the directory listing succeeds and names the file" % (dl.PROTO_NAMES[pk], ["before", "inside", "after"][wh]),
+                          bounds="byte value %s, html/plain, document/listing (symbolic)" % ("from 16 class representatives (NUL, CR, LF, markup, ASCII, UTF-8 continuation/lead/invalid bytes)" if tier == "quick" else "0..255"),
+                          functions=["handlers.html.HTMLFileTitleHandler.getentry", "handlers.file.FileHandler.getentry/write", "HandlerMultiplexer.getHandler", "protocols.*.handle"]))
     obs.append(Ob(id="C04.6-wap", body="harness.C04:body_wap", sig="l1: str, l2: str, final_nl: bool",
                   pre=["len(l1) <= %d" % n, "len(l2) <= %d" % (1 if tier == "quick" else 2), "all(c in 'a <&' + chr(9) + chr(11) + chr(12) + chr(13) + chr(0x1c) + chr(0x85) for c in l1 + l2)"],
                   timeout=300 if tier == "quick" else 1200,
